@@ -982,7 +982,7 @@ Definition vmatch (v s : option nat) : bool :=
   | _, _ => false
   end.
 Lemma coef_cv : forall e s, coef e s = if vmatch (snd (coeff_var e)) s then fst (coeff_var e) else 0.
-Proof. destruct e, s; simpl; auto. Show. Qed.
+Proof. intros e s. destruct e as [q|q t]; destruct s as [t'|]; simpl; auto. Qed.
 Lemma var_eqb_eq : forall a b, var_eqb a b = true -> a = b.
 Proof.
   destruct a, b; simpl; intros; try discriminate; auto. apply Nat.eqb_eq in H. subst. auto.
@@ -1006,17 +1006,17 @@ Proof.
     { intros. rewrite !coef_cv, Ea, Eb. cbn [fst snd]. destruct (vmatch av s); try ring. auto. }
     destruct (Qc_eq_bool ac q0) eqn:E1; destruct (Qc_eq_bool bc q0) eqn:E2; cbn [andb orb] in *; try congruence.
     + apply Qceqb_true in E1, E2. destruct (IH ratio Hne) as [A B]. split; auto.
-      intros a' b' [Heq|Hin] s; auto. inversion Heq; subst. apply Hab. ring.
+      intros a' b' [Heq|Hin] s; auto. injection Heq as <- <-. apply Hab. rewrite E1, E2. ring.
     + apply Qceqb_false in E1, E2.
       destruct (Qc_eq_bool ratio q0) eqn:E3.
       * apply Qceqb_true in E3. destruct (IH (bc / ac) Hne) as [A B].
         assert (Hc : bc / ac <> 0) by (apply Qcdiv_nonzero; auto).
         split. { intros; contradiction. }
-        intros a' b' [Heq|Hin] s; auto. inversion Heq; subst. apply Hab. rewrite A by auto. field. auto.
+        intros a' b' [Heq|Hin] s; auto. injection Heq as <- <-. apply Hab. rewrite A by auto. field. auto.
       * apply Qceqb_false in E3.
         destruct (Qc_eq_bool (bc / ac) ratio) eqn:E4; cbn [negb] in *; try congruence.
         apply Qceqb_true in E4. destruct (IH ratio Hne) as [A B]. split; auto.
-        intros a' b' [Heq|Hin] s; auto. inversion Heq; subst. apply Hab. rewrite A by auto.
+        intros a' b' [Heq|Hin] s; auto. injection Heq as <- <-. apply Hab. rewrite A by auto.
         rewrite <- E4. field. auto.
 Qed.
 
@@ -1194,4 +1194,294 @@ Proof.
   { unfold del_idx. apply del_from_keep_pos with (i := O). destruct O1; lia. simpl. apply mem_nIn. auto. }
   split; auto. split; auto.
   intros. rewrite (del_cols_masked m n q) by auto. apply O3.
+Qed.
+
+(* ================================================================== identity and the main theorem *)
+
+Lemma identity_shape : forall n, shapeQ n n (identity n).
+Proof.
+  intros. unfold identity. split. rewrite map_length, seq_length. auto.
+  unfold rectQ. rewrite Forall_map. apply Forall_forall. intros. rewrite map_length, seq_length. auto.
+Qed.
+Lemma qget_identity : forall n i k, (i < n)%nat -> (k < n)%nat ->
+  qget (identity n) i k = if (i =? k)%nat then q1 else q0.
+Proof.
+  intros. unfold qget, identity.
+  rewrite nth_map_in with (d := O) by (rewrite seq_length; auto).
+  rewrite nth_map_in with (d := O) by (rewrite seq_length; auto).
+  rewrite !seq_nth by auto. reflexivity.
+Qed.
+Lemma sumn_delta_l : forall n i f, (i < n)%nat ->
+  sumn n (fun k => (if (i =? k)%nat then q1 else q0) * f k) = f i.
+Proof.
+  intros. rewrite (sumn_upd1 n (fun _ => 0) _ i); auto.
+  - rewrite sumn_zero by auto. rewrite Nat.eqb_refl. ring.
+  - intros. destruct (Nat.eqb_spec i k); try lia. ring.
+Qed.
+Lemma sumn_delta_r : forall n j f, (j < n)%nat ->
+  sumn n (fun l => f l * (if (l =? j)%nat then q1 else q0)) = f j.
+Proof.
+  intros. rewrite (sumn_upd1 n (fun _ => 0) _ j); auto.
+  - rewrite sumn_zero by auto. rewrite Nat.eqb_refl. ring.
+  - intros. destruct (Nat.eqb_spec k j); try lia. ring.
+Qed.
+Lemma prod3_identity : forall m n M i j s, (i < m)%nat -> (j < n)%nat ->
+  prod3 m n (identity m) M (identity n) i j s = coef (get M i j) s.
+Proof.
+  intros. unfold prod3.
+  rewrite (sumn_ext m _ (fun k => (if (i =? k)%nat then q1 else q0) * coef (get M k j) s)).
+  - apply sumn_delta_l; auto.
+  - intros k Hk. rewrite qget_identity by auto.
+    rewrite (sumn_ext n _ (fun l => ((if (i =? k)%nat then q1 else q0) * coef (get M k l) s) *
+                                    (if (l =? j)%nat then q1 else q0))).
+    + apply sumn_delta_r; auto.
+    + intros. rewrite qget_identity by auto. reflexivity.
+Qed.
+
+Lemma ge_unfold : forall row0 M0,
+  gaussian_elimination (row0 :: M0) =
+  let M := row0 :: M0 in
+  let '(L1, M1) := deparallelize_rows (identity (length M)) M in
+  let '(R1, M2) := deparallelize_cols (identity (length row0)) M1 in
+  ge_loop (length M + length row0 + 1) (length M) (length row0) 0 0 L1 M2 R1.
+Proof. reflexivity. Qed.
+
+Theorem ge_correct : forall m n M, shapeE m n M -> (1 <= m)%nat -> (1 <= n)%nat ->
+  exists L M' R m' n', gaussian_elimination M = Some (L, M', R) /\
+    (m' <= m)%nat /\ (n' <= n)%nat /\ (1 <= m')%nat /\ (1 <= n')%nat /\
+    shapeQ m m' L /\ shapeE m' n' M' /\ shapeQ n' n R /\
+    forall i j s, (i < m)%nat -> (j < n)%nat -> prod3 m' n' L M' R i j s = coef (get M i j) s.
+Proof.
+  intros m n M HM Hm Hn.
+  assert (HlM : length M = m) by apply HM.
+  destruct M as [|row0 M0]. { simpl in HlM. lia. }
+  assert (Hr0 : length row0 = n) by (apply (ncols_shape m n _ HM Hm)).
+  rewrite ge_unfold. cbv zeta. rewrite Hr0, HlM.
+  set (Mx := row0 :: M0) in *.
+  pose proof (deparallelize_rows_ok m m n (identity m) Mx (identity_shape m) HM Hm) as D1.
+  destruct (deparallelize_rows (identity m) Mx) as [L1 M1]. simpl in D1.
+  destruct D1 as (m1 & A1 & A2 & A3 & A4 & A5).
+  pose proof (deparallelize_cols_ok m1 n n (identity n) M1 A4 (identity_shape n) A2 Hn) as D2.
+  destruct (deparallelize_cols (identity n) M1) as [R1 M2]. simpl in D2.
+  destruct D2 as (n1 & B1 & B2 & B3 & B4 & B5).
+  destruct (ge_loop_ok m n (m + n + 1) m n 0 0 m1 n1 L1 M2 R1 A3 B3 B4 A2 B2 A1 B1) as (res & E & S).
+  { right. lia. }
+  destruct res as [[L' M'] R']. destruct S as (m' & n' & C1 & C2 & C3 & C4 & C5 & C6 & C7 & C8).
+  exists L', M', R', m', n'. split; auto.
+  repeat split; auto; try apply C5; try apply C6; try apply C7; try lia.
+  intros i j s Hi Hj. rewrite C8, B5, A5 by auto. apply prod3_identity; auto.
+Qed.
+
+(* ================================================================== well-formed entries are preserved *)
+(* every Sym coefficient stays non-zero: no division by a zero pivot coefficient, and no
+   branch ever needs an entry that is not `Num q` or `Sym q s` with q <> 0 *)
+
+Lemma Forall_nth_default : forall A (P : A -> Prop) l k d, Forall P l -> P d -> P (nth k l d).
+Proof.
+  intros. destruct (Nat.lt_ge_cases k (length l)).
+  - rewrite Forall_forall in H. apply H, nth_In; auto.
+  - rewrite nth_overflow; auto.
+Qed.
+Lemma get_wf : forall M k l, mat_wf M -> ent_wf (get M k l).
+Proof.
+  intros. unfold get. apply Forall_nth_default; simpl; auto.
+  apply (Forall_nth_default _ (Forall ent_wf)); auto.
+Qed.
+Lemma factor_nz : forall e p : Qc, e <> 0 -> p <> 0 -> - e / p <> 0.
+Proof.
+  intros e p He Hp. apply Qcdiv_nonzero; auto. intro H. apply He.
+  assert (E : e = - - e) by ring. rewrite E, H. ring.
+Qed.
+Lemma add_entry_wf : forall f t s e, f <> 0 -> ent_wf t -> ent_wf s -> add_entry f t s = Some e -> ent_wf e.
+Proof.
+  intros f t s e Hf Ht Hs H. destruct s as [sq|sc sv]; destruct t as [tq|tc tv]; simpl in *.
+  - inversion H; subst. simpl. auto.
+  - destruct (Qc_eq_bool sq q0); inversion H; subst. simpl. auto.
+  - destruct (Qc_eq_bool tq q0); inversion H; subst. simpl.
+    intro E. apply Qcmult_integral in E. tauto.
+  - destruct (tv =? sv)%nat; try discriminate.
+    destruct (Qc_eq_bool (tc + f * sc) q0) eqn:E; inversion H; subst; simpl; auto.
+    apply Qceqb_false in E. auto.
+Qed.
+Lemma add_line_wf : forall f tl sl r, f <> 0 -> Forall ent_wf tl -> Forall ent_wf sl ->
+  add_line f tl sl = Some r -> Forall ent_wf r.
+Proof.
+  induction tl as [|t tl IH]; intros sl r Hf Ht Hs H; simpl in H.
+  - inversion H. auto.
+  - destruct sl as [|s sl]; try discriminate.
+    destruct (add_entry f t s) eqn:E; try discriminate.
+    destruct (add_line f tl sl) eqn:E2; try discriminate. inversion H; subst.
+    inversion Ht as [|? ? Ht1 Ht2]; inversion Hs as [|? ? Hs1 Hs2]; subst. constructor.
+    + apply (add_entry_wf f t s); auto.
+    + apply (IH sl); auto.
+Qed.
+Lemma col_wf : forall M k, mat_wf M -> Forall ent_wf (col k M).
+Proof.
+  intros. unfold col. rewrite Forall_map. unfold mat_wf in H. eapply Forall_impl; eauto.
+  simpl. intros. apply Forall_nth_default; simpl; auto.
+Qed.
+Lemma row_add_wf : forall M L t s f, f <> 0 -> mat_wf M -> mat_wf (fst (fst (row_add M L t s f))).
+Proof.
+  intros. unfold row_add. destruct (add_line f (nth t M []) (nth s M [])) eqn:E; simpl; auto.
+  apply Forall_upd; auto.
+  apply (add_line_wf f (nth t M []) (nth s M [])); auto;
+    apply (Forall_nth_default _ (Forall ent_wf)); auto.
+Qed.
+Lemma col_add_wf : forall M R t s f, f <> 0 -> mat_wf M -> mat_wf (fst (fst (col_add M R t s f))).
+Proof.
+  intros. unfold col_add. destruct (add_line f (col t M) (col s M)) eqn:E; simpl; auto.
+  pose proof (add_line_wf _ _ _ _ H (col_wf M t H0) (col_wf M s H0) E) as W.
+  unfold set_col, mat_wf. rewrite Forall_map. apply Forall_forall. intros [r e] Hin. simpl.
+  apply Forall_upd.
+  - unfold mat_wf in H0. rewrite Forall_forall in H0. apply H0. eapply in_combine_l; eauto.
+  - rewrite Forall_forall in W. apply W. eapply in_combine_r; eauto.
+Qed.
+Lemma mat_wf_map_swap : forall M i j, mat_wf M -> mat_wf (map (swap_nth i j) M).
+Proof.
+  intros. unfold mat_wf in *. rewrite Forall_map. eapply Forall_impl; eauto. simpl. intros.
+  apply Forall_swap_nth. auto.
+Qed.
+Lemma mat_wf_map_del : forall M Z, mat_wf M -> mat_wf (map (del_idx Z) M).
+Proof.
+  intros. unfold mat_wf in *. rewrite Forall_map. eapply Forall_impl; eauto. simpl. intros.
+  apply Forall_del_from. auto.
+Qed.
+Lemma nz_Num : forall q, ent_is_zero (Num q) = false -> q <> 0.
+Proof. simpl. intros. apply Qceqb_false. auto. Qed.
+
+Lemma row_elim_target_wf : forall pivot i st j,
+  ent_wf pivot -> ent_is_zero pivot = false ->
+  mat_wf (fst (fst st)) -> mat_wf (fst (fst (row_elim_target pivot i st j))).
+Proof.
+  intros pivot i [[M L] Z] j Hp Hz HM. simpl in HM. unfold row_elim_target.
+  destruct (negb (j =? i)%nat); simpl; auto.
+  destruct (ent_is_zero (get M j i)) eqn:Ez; simpl; auto.
+  pose proof (get_wf M j i HM) as We.
+  destruct pivot as [pq|pc pv]; destruct (get M j i) as [eq|ec ev]; simpl; auto.
+  - pose proof (row_add_wf M L j i (- eq / pq) (factor_nz _ _ (nz_Num _ Ez) (nz_Num _ Hz)) HM) as W.
+    destruct (row_add M L j i (- eq / pq)) as [[M' L'] iz]. auto.
+  - destruct (pv =? ev)%nat; simpl; auto.
+    pose proof (row_add_wf M L j i (- ec / pc) (factor_nz _ _ We Hp) HM) as W.
+    destruct (row_add M L j i (- ec / pc)) as [[M' L'] iz]. auto.
+Qed.
+Lemma col_elim_target_wf : forall pivot j st i,
+  ent_wf pivot -> ent_is_zero pivot = false ->
+  mat_wf (fst (fst st)) -> mat_wf (fst (fst (col_elim_target pivot j st i))).
+Proof.
+  intros pivot j [[M R] Z] i Hp Hz HM. simpl in HM. unfold col_elim_target.
+  destruct (negb (i =? j)%nat); simpl; auto.
+  destruct (ent_is_zero (get M j i)) eqn:Ez; simpl; auto.
+  pose proof (get_wf M j i HM) as We.
+  destruct pivot as [pq|pc pv]; destruct (get M j i) as [eq|ec ev]; simpl; auto.
+  - pose proof (col_add_wf M R i j (- eq / pq) (factor_nz _ _ (nz_Num _ Ez) (nz_Num _ Hz)) HM) as W.
+    destruct (col_add M R i j (- eq / pq)) as [[M' R'] iz]. auto.
+  - destruct (pv =? ev)%nat; simpl; auto.
+    pose proof (col_add_wf M R i j (- ec / pc) (factor_nz _ _ We Hp) HM) as W.
+    destruct (col_add M R i j (- ec / pc)) as [[M' R'] iz]. auto.
+Qed.
+Lemma fold_left_inv : forall A B (P : A -> Prop) (f : A -> B -> A) l st,
+  (forall st x, P st -> P (f st x)) -> P st -> P (fold_left f l st).
+Proof. induction l; simpl; intros; auto. Qed.
+
+Lemma row_elim_step_wf : forall i L M, mat_wf M -> mat_wf (snd (row_elim_step i L M)).
+Proof.
+  intros i L M HM. unfold row_elim_step.
+  set (sw0 := if ent_is_zero (get M i i)
+              then match find_row_pivot M i with Some j => row_swap M L i j | None => (M, L) end
+              else (M, L)).
+  assert (Hsw : mat_wf (fst sw0)).
+  { unfold sw0. destruct (ent_is_zero (get M i i)); auto.
+    destruct (find_row_pivot M i); auto. simpl. apply Forall_swap_nth. auto. }
+  destruct sw0 as [M1 L1]. simpl in Hsw.
+  destruct (ent_is_zero (get M1 i i)) eqn:Ez; auto.
+  pose proof (fold_left_inv _ _ (fun st => mat_wf (fst (fst st))) (row_elim_target (get M1 i i) i)
+                (seq 0 (length M1)) (M1, L1, [])) as F.
+  destruct (fold_left (row_elim_target (get M1 i i) i) (seq 0 (length M1)) (M1, L1, [])) as [[M2 L2] Z].
+  simpl in *. apply Forall_del_from. apply F; auto.
+  intros. apply row_elim_target_wf; auto. apply get_wf. auto.
+Qed.
+Lemma col_elim_step_wf : forall j R M, mat_wf M -> mat_wf (snd (col_elim_step j R M)).
+Proof.
+  intros j R M HM. unfold col_elim_step.
+  set (sw0 := if ent_is_zero (get M j j)
+              then match find_col_pivot M j with Some i => col_swap M R j i | None => (M, R) end
+              else (M, R)).
+  assert (Hsw : mat_wf (fst sw0)).
+  { unfold sw0. destruct (ent_is_zero (get M j j)); auto.
+    destruct (find_col_pivot M j); auto. simpl. apply mat_wf_map_swap. auto. }
+  destruct sw0 as [M1 R1]. simpl in Hsw.
+  destruct (ent_is_zero (get M1 j j)) eqn:Ez; auto.
+  pose proof (fold_left_inv _ _ (fun st => mat_wf (fst (fst st))) (col_elim_target (get M1 j j) j)
+                (seq 0 (ncols M1)) (M1, R1, [])) as F.
+  destruct (fold_left (col_elim_target (get M1 j j) j) (seq 0 (ncols M1)) (M1, R1, [])) as [[M2 R2] Z].
+  simpl in *. apply mat_wf_map_del. apply F; auto.
+  intros. apply col_elim_target_wf; auto. apply get_wf. auto.
+Qed.
+Lemma row_elim_loop_wf : forall fuel i L M L' M',
+  row_elim_loop fuel i L M = Some (L', M') -> mat_wf M -> mat_wf M'.
+Proof.
+  induction fuel; intros i L M L' M' H HM; simpl in H.
+  - destruct (i <? Nat.min (length M) (ncols M))%nat; inversion H; subst; auto.
+  - destruct (i <? Nat.min (length M) (ncols M))%nat. 2:{ inversion H; subst; auto. }
+    pose proof (row_elim_step_wf i L M HM) as W.
+    destruct (row_elim_step i L M) as [L1 M1]. eapply IHfuel; eauto.
+Qed.
+Lemma col_elim_loop_wf : forall fuel j R M R' M',
+  col_elim_loop fuel j R M = Some (R', M') -> mat_wf M -> mat_wf M'.
+Proof.
+  induction fuel; intros j R M R' M' H HM; simpl in H.
+  - destruct (j <? Nat.min (length M) (ncols M))%nat; inversion H; subst; auto.
+  - destruct (j <? Nat.min (length M) (ncols M))%nat. 2:{ inversion H; subst; auto. }
+    pose proof (col_elim_step_wf j R M HM) as W.
+    destruct (col_elim_step j R M) as [R1 M1]. eapply IHfuel; eauto.
+Qed.
+Lemma ge_loop_wf : forall fuel r c ro co L M R L' M' R',
+  ge_loop fuel r c ro co L M R = Some (L', M', R') -> mat_wf M -> mat_wf M'.
+Proof.
+  induction fuel; intros r c ro co L M R L' M' R' H HM; cbn [ge_loop] in H.
+  - destruct ((r =? ro)%nat && (c =? co)%nat); inversion H; subst; auto.
+  - destruct ((r =? ro)%nat && (c =? co)%nat). { inversion H; subst; auto. }
+    destruct (row_elimination L M) as [[L1 M1]|] eqn:E1; try discriminate.
+    destruct (column_elimination R M1) as [[R1 M2]|] eqn:E2; try discriminate.
+    eapply IHfuel; eauto.
+    eapply col_elim_loop_wf; eauto. eapply row_elim_loop_wf; eauto.
+Qed.
+Theorem ge_wf : forall M L M' R, mat_wf M -> gaussian_elimination M = Some (L, M', R) -> mat_wf M'.
+Proof.
+  intros M L M' R HM H. destruct M as [|row0 M0]. { discriminate. }
+  rewrite ge_unfold in H. cbv zeta in H.
+  set (Mx := row0 :: M0) in *.
+  assert (W1 : mat_wf (snd (deparallelize_rows (identity (length Mx)) Mx))).
+  { unfold deparallelize_rows. destruct (depar_rows_outer _ _ _ _). simpl. apply Forall_del_from. auto. }
+  destruct (deparallelize_rows (identity (length Mx)) Mx) as [L1 M1]. simpl in W1.
+  assert (W2 : mat_wf (snd (deparallelize_cols (identity (length row0)) M1))).
+  { unfold deparallelize_cols. destruct (depar_cols_outer _ _ _ _). simpl. apply mat_wf_map_del. auto. }
+  destruct (deparallelize_cols (identity (length row0)) M1) as [R1 M2]. simpl in W2.
+  eapply ge_loop_wf; eauto.
+Qed.
+
+(* ================================================================== corollaries in the form used by Props/C13.v *)
+Lemma row_swap_prod : forall p m n L M i j,
+  shapeQ p m L -> shapeE m n M -> (i < m)%nat -> (j < m)%nat ->
+  forall R i0 j0 x, prod3 m n (snd (row_swap M L i j)) (fst (row_swap M L i j)) R i0 j0 x
+                    = prod3 m n L M R i0 j0 x.
+Proof. intros p m n L M i j HL HM Hi Hj. exact (proj2 (proj2 (row_swap_spec p m n L M i j HL HM Hi Hj))). Qed.
+Lemma col_swap_prod : forall m n q M R i j,
+  shapeE m n M -> shapeQ n q R -> (i < n)%nat -> (j < n)%nat ->
+  forall L i0 j0 x, prod3 m n L (fst (col_swap M R i j)) (snd (col_swap M R i j)) i0 j0 x
+                    = prod3 m n L M R i0 j0 x.
+Proof. intros m n q M R i j HM HR Hi Hj. exact (proj2 (proj2 (col_swap_spec m n q M R i j HM HR Hi Hj))). Qed.
+Lemma del_rows_prod : forall p m n L M Z R i j x,
+  shapeQ p m L -> shapeE m n M -> (i < p)%nat -> (forall z, In z Z -> zero_row M z) ->
+  prod3 (length (del_idx Z M)) n (map (del_idx Z) L) (del_idx Z M) R i j x = prod3 m n L M R i j x.
+Proof.
+  intros p m n L M Z R i j x HL HM Hi HZ.
+  exact (eq_trans (del_rows_masked p m n L M Z R i j x HL HM Hi) (mprod_rows_unmask m n L M R Z i j x HZ)).
+Qed.
+Lemma del_cols_prod : forall m n q L M Z R i j x,
+  shapeE m n M -> shapeQ n q R -> (forall z, In z Z -> zero_col M z) ->
+  prod3 m (length (del_idx Z R)) L (map (del_idx Z) M) (del_idx Z R) i j x = prod3 m n L M R i j x.
+Proof.
+  intros m n q L M Z R i j x HM HR HZ.
+  exact (eq_trans (del_cols_masked m n q L M Z R i j x HM HR) (mprod_cols_unmask m n L M R Z i j x HZ)).
 Qed.
